@@ -89,6 +89,8 @@ def run(tier, seed):
         for p in ps:
             for q in ps:
                 check("product", p + q, "(%s * %s) is measured.Prefix(%d, %s.exponent + %s.exponent)" % (p, q, base, p, q))
+                check("product-exact", p + q, "type((%s * %s).exponent) is int and type((%s / %s).exponent) is int and (7 * ((%s * %s) * Meter)).unprefixed().magnitude == 7 * %d ** (%s.exponent + %s.exponent)"
+                      % (p, q, p, q, p, q, base, p, q) if ns[p].exponent + ns[q].exponent >= 0 else "type((%s * %s).exponent) is int and type((%s / %s).exponent) is int" % (p, q, p, q))
                 check("quotient", p + q, "(%s / %s) is measured.Prefix(%d, %s.exponent - %s.exponent)" % (p, q, base, p, q))
             check("identity", p, "%s * IdentityPrefix is %s and IdentityPrefix * %s is %s" % (p, p, p, p))
             for n in exps:
